@@ -26,6 +26,9 @@ ASSUMPTIONS = [
     "use before definition (the property asks for independence of definition order; the specification text requires definition first): proved as well (C07_any_order*): the parser returns the designated graph, every reference slot holds the single node carrying the reference's specification fullname, every definition has exactly one node, and the canonical form and fingerprint are those of the specification's PCF of the hoisted document (the writer's guard against cycles of unnamed types is proved never to fire on a parsed graph); the correspondence run compares H1 text with the extracted pcf of the hoisted document",
     "three spec-allowed spellings the crate rejects are documented and excluded (type given as a nested object; a name attribute on an unnamed type takes part in the duplicate check; non-canonical size tokens like 04): C07_*_refuted",
     "logical types and their parameters are compared node by node between model and crate in the correspondence run (the canonical form drops them)",
+    "aliases: per the specification they serve reader/writer resolution only and define no names within one schema document; the model (Parse.v) ignores the attribute like every "
+    "free attribute, so a document whose aliases coincide with the fullname / simple name of another type (defined earlier or later) is valid with the same graph, and a reference to a "
+    "name that exists only as an alias is an unknown reference (docgen.alias_only_reference; expected rejection = the property's 'unknown reference' clause, the model's parse agrees)",
 ]
 
 def objs(j, path=()):
@@ -130,6 +133,8 @@ def run(ctx):
     rng = random.Random(ctx["seed"] * 1000003 + 7)
     n = 700 if ctx["tier"] == "quick" else 30000
     cases = []
+    alias_docs = {}           # valid cases whose aliases are names of the document
+    same_text = {}            # valid cases holding pending references with the same text for different targets
     while len(cases) < n:
         fw = rng.choice([0.0, 0.0, 0.8])
         named = rng.random() < 0.6
@@ -137,7 +142,13 @@ def run(ctx):
             # the name rules: colliding simple names over several namespaces, every (enclosing, own) namespace arrangement,
             # many references, definitions before and after their uses
             fw = rng.choice([0.0, 0.5, 0.9])
-            nodes = D.NameGraphGen(rng, logical=True).build()
+            if rng.random() < 0.25:
+                # the same simple name in several namespaces, each referred to by its short spelling from inside its own namespace
+                # before any of them is defined: several pending references with the same text, different fullnames
+                fw = rng.choice([0.7, 1.0])
+                nodes = D.forward_twins(rng)
+            else:
+                nodes = D.NameGraphGen(rng, logical=True).build()
         else:
             g = G.SchemaGen(rng, max_nodes=rng.choice([2, 5, 10, 18]), max_depth=rng.choice([2, 4, 6]),
                             namespaces=rng.choice([("",), ("ns", "ns.sub", "other"), ("", "ns", "ns.sub")]),
@@ -145,17 +156,27 @@ def run(ctx):
             nodes = g.build()
         for attempt in range(4):
             # free positions (doc, defaults, custom attributes): plain, or strings / numbers that are delicate to copy (reported JSON)
-            dg = D.DocGen(rng, nodes, forward=fw, rich=rng.choice([0.0, 0.0, 0.6]))
+            # aliases: the fixed "Old", or (alias_names) names of the document itself -- the fullname / simple name of ANOTHER named type
+            # defined earlier or later, the type's own name: aliases define no names within a schema (the model ignores them)
+            dg = D.DocGen(rng, nodes, forward=fw, rich=rng.choice([0.0, 0.0, 0.6]), alias_names=rng.choice([0.0, 0.0, 0.5, 0.9]))
             doc = dg.gen(0, None)
             if set(dg.occ) == dg.defined:
                 break
         else:
             continue            # a late definition site was never reached (the only later uses are inside the definition itself)
         ref_doc = D.DocGen(rng, nodes, forward=0.0, extras=0.0).gen(0, None)
+        if D.same_text_forward_refs(dg):
+            same_text[len(cases)] = True
+        if dg.alias_names and any(k == "aliases" for _, o in objs(doc) for k, _ in o[1]):
+            alias_docs[len(cases)] = True
         cases.append(("valid", nodes, doc, ref_doc, dg.has_forward))
         if rng.random() < (0.6 if named else 0.35):
             r = rng.random()
-            if named and r < 0.45:
+            if rng.random() < 0.2:
+                # a reference to a name that exists only as an alias of a defined type: an unknown reference
+                d2 = D.alias_only_reference(rng, dg, doc)
+                inv = ("unknown-ref-alias-only", d2) if d2 else None
+            elif named and r < 0.45:
                 d2 = D.near_miss_unknown(rng, dg, doc)
                 inv = ("unknown-ref-near-miss", d2) if d2 else None
             elif named and r < 0.65:
@@ -249,6 +270,10 @@ def run(ctx):
             rr = C.parse_sx(next(refm))[0]
             bb = C.parse_sx(next(built))[0]
             dist[("valid/forward-refs" if fwd else "valid") + ("/conditional-cycle/" + arrangement[ci] if ci in arrangement else "")] += 1
+            if ci in alias_docs:
+                dist["valid/aliases-named-like-types-of-the-document"] += 1
+            if ci in same_text:
+                dist["valid/forward-refs/same-text-different-targets"] += 1
             if pi[0] != "ok":
                 violations.append({"impl_case": line, "what": "a specification-valid document was rejected",
                                    "document": text[:600], "impl": ri[:300]})
@@ -287,11 +312,11 @@ def run(ctx):
                 violations.append({"impl_case": line, "what": "an invalid document (%s) was accepted" % kind, "document": text[:800]})
     return {"evaluations": len(cases) * 2, "distinct_nontrivial": len(distinct),
             "rule": "name-rule schemas (few simple names over several namespaces, every enclosing/own namespace arrangement, null-namespace "
-                    "types inside namespaces, many references incl. `.Name`, conditional recursion) and valid schemas (all node kinds, logical types, sharing, recursion) spelled as documents with random choices of: namespace in "
+                    "types inside namespaces, many references incl. `.Name`, conditional recursion; docgen.forward_twins: one simple name in several namespaces referred to by its short spelling from inside each namespace before any definition = pending references with the same text and different fullnames) and valid schemas (all node kinds, logical types, sharing, recursion) spelled as documents with random choices of: namespace in "
                     "the name / namespace attribute / inherited / explicit empty namespace, inline definition vs reference, definition after use "
-                    "(forward references), member order, doc/aliases/default/order/custom attributes, whitespace and \\u escapes; oracle: H1 canonical "
+                    "(forward references), member order, doc/aliases (also aliases equal to the fullname / simple name of another type of the document defined earlier or later: they define nothing)/default/order/custom attributes, whitespace and \\u escapes; oracle: H1 canonical "
                     "form = extracted PcfSpec.pcf of the schema's forward-reference-free spelling, fingerprint = that of the built graph, "
                     "attributes preserved, JSON = minified document; invalidations (unknown reference, duplicate definition, missing required "
-                    "attribute, self/mutually containing records -- also with the records of the cycle defined side by side (branches of a root union, sibling fields) in any order, every edge of the cycle a reference from inside its target, to a completed sibling, or forward; verdict = the model's exact cycle check --, near-miss references = an existing simple name resolved in a namespace where it is "
+                    "attribute, self/mutually containing records -- also with the records of the cycle defined side by side (branches of a root union, sibling fields) in any order, every edge of the cycle a reference from inside its target, to a completed sibling, or forward; verdict = the model's exact cycle check --, a reference to a name that only exists as an alias of a defined type, near-miss references = an existing simple name resolved in a namespace where it is "
                     "not defined, a second definition of a fullname in another spelling) must be rejected; model vs crate: node vector, canonical form, fingerprint, JSON",
             "samples": samples, "violations": violations, "model_diffs": diffs, "distribution": dict(dist)}
